@@ -979,8 +979,17 @@ struct FnEmit
             if (B.isUnconditional())
                 os << "  " << gotoEdge(BB, B.getSuccessor(0)) << "\n";
             else
-                os << "  if (" << val(B.getCondition()) << ") " << gotoEdge(BB, B.getSuccessor(0)) << " else " << gotoEdge(BB, B.getSuccessor(1))
-                   << "\n";
+            {
+                // the branch condition goes through a named temporary: CBMC keeps path guards as expressions, and a guard built from
+                // inlined pointer-dereference conditions is re-merged for every variable at every join (measured: minutes per join)
+                static bool condTemps = getenv("VERIF_NO_CONDTEMP") == nullptr;
+                std::string c = val(B.getCondition());
+                bool simple = c.find_first_of(" (*&[") == std::string::npos;
+                if (condTemps && !simple)
+                    os << "  { u1 verif_c = (u1)(" << c << "); if (verif_c) " << gotoEdge(BB, B.getSuccessor(0)) << " else " << gotoEdge(BB, B.getSuccessor(1)) << " }\n";
+                else
+                    os << "  if (" << c << ") " << gotoEdge(BB, B.getSuccessor(0)) << " else " << gotoEdge(BB, B.getSuccessor(1)) << "\n";
+            }
             return;
         }
         case Instruction::Switch:
